@@ -47,6 +47,7 @@ ASSUMPTIONS = [
     "element (std = NaN) are excluded",
     "batch-vs-single tolerance 1e-5 relative to the output scale (float32, oneDNN disabled so that most models are bit-identical; "
     "1e-4 for KIKINet with a normalised U-Net on k-space, 1e-3 for ConjGradNet whose CG tolerance bounds its own accuracy)",
+    "coil-permutation tolerance 1e-4 (float32 coil sums are re-ordered; measured rounding effect <= 1.3e-5)",
     "evaluation mode only",
 ]
 RULE = ("integer batches (b 1..4, c, h, w small, groups dividing) for the normalisation functions; Gaussian-integer coil stacks "
@@ -60,6 +61,10 @@ PENDING_FINDINGS = [
 ]
 # configurations that cannot be evaluated at all on the current tree (reported by C17)
 _UNUSABLE = {"normunet-zero-group"}
+
+# permuting the coils changes the order of every float32 coil summation: rounding differences up to 1.3e-5 (relative) were
+# measured through the deeper networks; a coil-order dependence changes the output by O(1)
+_PERM_TOL = 1e-4
 
 _ZOO = None
 _MODELS: dict = {}
@@ -306,7 +311,7 @@ def _check_entry(ctx, e, deep):
                 out = _run(e, m, Z.permute_coils(x, perm))
                 ref = single if e.coil_invariant else single[:, perm]
                 r = _rel(ref, out)
-                if not (r <= max(e.tol, 1e-5)):
+                if not (r <= max(e.tol, _PERM_TOL)):
                     yield Violation(f"{e.name}:coil-order",
                                     f"{e.name}: permuting the coils of k-space and maps together changes the reconstruction by {r:.2e}",
                                     {"op": "perm", "entry": e.name, "h": h, "w": w, "seed": seed, "perm": perm, "observed_rel_diff": r})
@@ -366,7 +371,7 @@ def replay(rep: dict) -> bool:
     op = rep.get("op")
     if op not in ("batch", "single", "repeat", "perm"):
         return True
-    e = next((x for x in Z.zoo() if x.name == rep["entry"]), None)
+    e = next((x for x in Z.zoo(thorough=True) if x.name == rep["entry"]), None)
     if e is None:
         return True
     m = model_of(e)
@@ -381,7 +386,7 @@ def replay(rep: dict) -> bool:
         if op == "perm":
             out = _run(e, m, Z.permute_coils(x, rep["perm"]))
             ref = single if e.coil_invariant else single[:, rep["perm"]]
-            return _rel(ref, out) > max(e.tol, 1e-5)
+            return _rel(ref, out) > max(e.tol, _PERM_TOL)
         k, pos, sc = rep["batch"], rep["position"], rep["companion_scale"]
         comps = [_inputs(e, 1, h, w, seed + 10 + j, scale=sc) for j in range(k - 1)]
         out = _run(e, m, _cat(e, comps[:pos] + [x] + comps[pos:]))[pos:pos + 1]
